@@ -130,9 +130,37 @@ Section Matcher.
     rewrite (spec_lookup_unbound_head d u [] Hpf Hu) in E1. injection E1 as _ <-. reflexivity.
   Qed.
 
-  (* the pending keys are always empty, a proper prefix of a bound chord, or one rejected key *)
+  (* states the matcher can be in: nothing pending, a proper prefix of a bound chord, or one rejected key *)
   Definition pending_ok (d : dict) (st : list K) : Prop :=
     st = [] \/ spec_lookup d st = Continue \/ (exists k, st = [k] /\ spec_lookup d [k] = Failure).
+  Definition pending_ok_state := pending_ok.
+
+  (* converse: the matcher fires only bound chords — the pending keys followed by
+     the key, or (after a failed first pass) the key alone *)
+  Lemma spec_handle_fires_bound (d : dict) st k st' v :
+    prefix_free d -> spec_handle d st k = (st', Some v) ->
+    st' = [] /\ (In (st ++ [k], v) d \/ (spec_lookup d (st ++ [k]) = Failure /\ In ([k], v) d)).
+  Proof.
+    intros Hpf. unfold KeyMap.spec_handle.
+    destruct (spec_lookup d (st ++ [k])) as [v0| |] eqn:E.
+    - intros H. injection H as <- <-. split; [reflexivity|]. left.
+      apply (spec_lookup_success cmp cmp_eq); assumption.
+    - destruct (spec_lookup d [k]) as [v1| |] eqn:E1; intros H; try discriminate.
+      injection H as <- <-. split; [reflexivity|]. right. split; [reflexivity|].
+      apply (spec_lookup_success cmp cmp_eq); assumption.
+    - discriminate.
+  Qed.
+
+  (* the literal reading "an unbound key never prevents the chord typed right after it
+     from firing", for every pending state, is false: the unbound key may continue the
+     pending chord.  Stated over the dictionary; KeyMapInst lifts it to the trie. *)
+  Definition never_prevents (d : dict) : Prop :=
+    forall st u c v, begins_no_chord u d -> In (c, v) d -> c <> [] ->
+      pending_ok_state d st ->
+      exists st' o, spec_handle d st u = (st', o)
+                    /\ spec_run d st' c = ([], fires_at_last v (length c)).
+
+  (* the pending keys are always empty, a proper prefix of a bound chord, or one rejected key *)
 
   Lemma spec_handle_pending (d : dict) st k :
     pending_ok d (fst (spec_handle d st k)).
